@@ -18,6 +18,13 @@ import check  # noqa
 from checks import CHECKS
 
 def norm(line):
+    if line.startswith("VPANIC"):
+        return "VPANIC"
+    # timestamps: the engine's clock stub and the host clock differ; C16 stubs the formatter itself
+    line = re.sub(r'T<.{8,80}?>[^#]*#', 'T', line)
+    line = re.sub(r'(\\x1b\[32m)[^|]*\|', r'\1T|', line)
+    line = re.sub(r'time=\\"[^"]*\\"', 'time=T', line)
+    line = re.sub(r'\\"time\\":\\"[^"]*\\"', 'time:T', line)
     line = re.sub(r'\d\d:\d\d:\d\d\.\d{6}(Z|[+-]\d\d:\d\d)', 'T', line)
     line = re.sub(r'[./\w-]*/(zz_verif_\w+\.go)', r'\1', line)
     line = re.sub(r'0x[0-9a-f]+', '0xADDR', line)
@@ -41,7 +48,7 @@ def main():
             h = smp["harness"]
             pkg = pkgs.get(h, "slog")
             rp = os.path.join(ROOT, "bin", "selftest-%s-%d.json" % (pid, k))
-            json.dump({"harness": h, "label": "", "params": runs[h]["params"], "items": smp["inputs"]}, open(rp, "w"))
+            json.dump({"harness": h, "label": "", "params": smp.get("params", runs[h]["params"]), "items": smp["inputs"]}, open(rp, "w"))
             if pkg not in replayers:
                 replayers[pkg] = check.build_replayer(pkg, "selftest-" + os.path.basename(pkg))
             a = check.sh([exe, "-repo", check.REPO, "-pkg", "./" + pkg, "-harness", os.path.join(ROOT, "harness"),
